@@ -65,7 +65,10 @@ func (self ValueAnyObject) Fields() (map[string]*Value, *VmInterrupt) {
 			return NewValueOption(value), nil
 		}),
 		"get_type": NewValueBuiltinFunction(func(executor Executor, cancelCtx *context.Context, span errors.Span, args ...Value) (*Value, *VmInterrupt) {
-			value := self.FieldsInternal[args[0].(ValueString).Inner]
+			value, found := self.FieldsInternal[args[0].(ValueString).Inner]
+			if !found {
+				return nil, NewVMThrowInterrupt(span, fmt.Sprintf("Object has no field `%s`", args[0].(ValueString).Inner))
+			}
 			return NewValueString((*value).Kind().TypeKind().String()), nil
 		}),
 		"keys": NewValueBuiltinFunction(func(executor Executor, cancelCtx *context.Context, span errors.Span, args ...Value) (*Value, *VmInterrupt) {
